@@ -640,8 +640,8 @@ def run(ctx):
     quick = ctx.quick
     fixed = fixed_scenarios()
     bound = 2 if quick else 3   # quick: <= 1 complete, <= 2 capped; thorough: <= 2 complete, <= 3 capped
-    per_scn = 1200 if quick else 18000   # cap on the runs per fixed scenario (spread over the first-level subtrees)
-    n_rand_tasks = 32 if quick else 256
+    per_scn = 850 if quick else 18000   # cap on the runs per fixed scenario (spread over the first-level subtrees)
+    n_rand_tasks = 24 if quick else 256
     rand = [(ctx.rng.getrandbits(48), 30 if quick else 150, False) for _ in range(n_rand_tasks)]
     line = [(ctx.rng.getrandbits(48), 3 if quick else 15, True) for _ in range(16 if quick else 96)]
     prox = ([(ctx.rng.getrandbits(48), 12 if quick else 100, False, True) for _ in range(8 if quick else 64)]
